@@ -194,6 +194,33 @@ CLAIMED["C04"] = dict(
     technique="Lean 4 proofs over a token-level codec model + differential correspondence on per-field / per-cell tokens",
     design="7 C04")
 
+CLAIMED["C17"] = dict(
+    text="Model of read_EMD_v0p1.py and of the fallback in read(). Kernel-checked for EVERY file: C17_refuse_junk / _missing / "
+         "_no_groups — non-HDF5 bytes, and any HDF5 file that is neither EMD 1.0 nor holds a group tagged emd_group_type=1, make "
+         "read raise; C17_detector — the EMD 1.0 detector is exactly header type 'file' + version 1.0 + >= 1 root; C17_import_axis — "
+         "a full-length 1-based dim dataset becomes the axis' dim vector verbatim (every arithmetic); C17_import_calibrated — every "
+         "imported Array satisfies C14; C17_single — one data group gives that Array under the group's name.",
+    note="PARTIAL: for several data groups (root holding all of them by name) the theorem is not stated beyond the model's "
+         "definition; it is compared by the correspondence (arrays by name with data token, bit-exact dims, names, units) on files "
+         "with 1-4 data groups at depth 0-3. Forced hypothesis: distinct data-group basenames (C17_counterexample_same_name, known "
+         "finding C17-K1). The shape h5py reports for `data` is contract H2.",
+    technique="Lean 4 proofs over a model of the legacy reader + differential correspondence on generated legacy / foreign / junk files",
+    design="7 C17")
+CLAIMED["C19"] = dict(
+    text="In the model save is a function from VALUES and a file system to a file system or an error: the caller's objects are not "
+         "among its outputs, for successful and failing saves alike (structural frame). What write.py does to runtime objects "
+         "besides reading them is the temporary rooting of unrooted nodes; saveEffect is its net effect after the repair and "
+         "C19_frame proves it invisible (every node keeps its root, place, children and metadata objects), C19_still_unrooted / "
+         "C19_can_be_added — an unrooted node stays unrooted and can still be added to a tree; C19_repeat — the tree content written "
+         "into a fresh file does not depend on the header, so two saves of the same input differ in the UUID only.",
+    note="The frame over REAL objects is what the correspondence checks: full snapshot of all caller objects (shape, names, roots, "
+         "metadata identity and content, data tokens, list length and item identity) before / after a save of every input kind, "
+         "mode and tree option, including saves forced to fail half-way, plus re-addability and a repeated save. The model side of "
+         "that comparison is the trivial prediction 'after = before'. Metadata .name re-synchronisation is invisible when key = "
+         "name (the only state the public setter produces).",
+    technique="Lean 4 frame proof on the heap model + before/after snapshot comparison on the real objects (successful and failing saves)",
+    design="7 C19")
+
 NOT_YET = {}
 
 def main():
